@@ -701,7 +701,7 @@ func calAndSetShortCircuit(e *Expr) {
 
 func calAndSetShortCircuitForRCO(e *Expr) {
 	for i, n := range e.nodes {
-		p, _ := parentNode(e, int16(i))
+		p, pIdx := parentNode(e, int16(i))
 		switch {
 		case p == nil:
 			continue
@@ -709,6 +709,10 @@ func calAndSetShortCircuitForRCO(e *Expr) {
 			n.flag |= andOp
 		case isOrOpNode(p):
 			n.flag |= orOp
+		case p.getNodeType() == cond && int16(i) > pIdx && n.value != "fi":
+			// the value of a branch is the value of the `if` expression:
+			// it can decide the and/or the `if` expression is an operand of
+			n.flag |= p.flag & parentOpMask
 		}
 	}
 }
